@@ -677,7 +677,13 @@ Value create_union(const char *union_name, int variant_index, const char *varian
         /* Allocate and copy field values */
         v.as.union_val->field_values = malloc(sizeof(Value) * field_count);
         for (int i = 0; i < field_count; i++) {
-            v.as.union_val->field_values[i] = field_values[i];
+            if (field_values[i].type == VAL_STRING) {
+                /* own copy, as create_struct does: the operand may be a parameter or local that its frame frees */
+                const char *src = field_values[i].as.string_val ? field_values[i].as.string_val : "";
+                v.as.union_val->field_values[i] = create_string(src);
+            } else {
+                v.as.union_val->field_values[i] = field_values[i];
+            }
         }
     } else {
         v.as.union_val->field_names = NULL;
